@@ -152,6 +152,10 @@ func CalcExitPool(
 		weightBreakingFee := GetWeightBreakingFee(finalWeightIn, finalWeightOut, targetWeightIn, targetWeightOut, initialWeightIn, initialWeightOut, distanceDiff, params)
 
 		tokenOutAmount := oracleOutAmount.Mul(sdkmath.LegacyOneDec().Sub(weightBreakingFee)).RoundInt()
+		// an exit must never empty a reserve (same rule as the all-asset path below)
+		if reserve, err := pool.GetAmmPoolBalance(tokenOutDenom); err != nil || tokenOutAmount.GTE(reserve) {
+			return sdk.Coins{}, sdkmath.LegacyZeroDec(), errors.New("too many shares out")
+		}
 		return sdk.Coins{sdk.NewCoin(tokenOutDenom, tokenOutAmount)}, weightBreakingFee.Neg(), nil
 	}
 
